@@ -489,28 +489,31 @@ def static_storage_check(prop, job, workdir):
     """Structural obligation decided from the goto symbol table (front end of the same tool
     chain): every object of static storage duration defined in the repository's POSIX
     sources must be const or thread-local. Returns obligations and violations."""
-    goto = os.path.join(workdir, "sym.goto")
+    wfl = ["-DVP_CBMC", "-DVP_ON_%s=1" % prop, "-D_WIN32=1", "-D_WIN64=1", "-I" + os.path.join(VERIF, "model", "win")]
     if job.variant.startswith("windows"):
-        # the Windows leaf unit, compiled as in H_win
-        src = os.path.join(VERIF, "harness", "h_win.c")
-        fl = list(BASE_CFLAGS) + ["-DVP_CBMC", "-DVP_ON_%s=1" % prop, "-D_WIN32=1", "-D_WIN64=1", "-DVP_WUNIT=3",
-                                  "-I" + os.path.join(VERIF, "model", "win")]
+        # the Windows units, compiled as in H_win (process.windows.c) and H_winredir (redirect.windows.c,
+        # handle.windows.c, error.windows.c, redirect.c)
+        units = [(os.path.join(VERIF, "harness", "h_win.c"), list(BASE_CFLAGS) + wfl + ["-DVP_WUNIT=3"]),
+                 (os.path.join(VERIF, "harness", "h_winredir.c"), list(BASE_CFLAGS) + wfl)]
     else:
         src = os.path.join(workdir, "sym.c")
         open(src, "w").write('#include "reproc_all.h"\n#include "vp_nocb.h"\nvoid harness(void) {}\n')
-        fl = list(BASE_CFLAGS) + ["-DVP_CBMC", "-DVP_ON_%s=1" % prop, "-include", os.path.join(VERIF, "model", "vp_shim.h")]
-    rc, so, se, _ = sh(["goto-cc", "-c", src, "-o", goto] + fl, timeout=300)
-    if rc != 0:
-        raise Inconclusive("goto-cc failed for the symbol-table unit:\n" + se[-2000:])
-    rc, so, se, _ = sh(["goto-instrument", "--show-symbol-table", "--json-ui", goto], timeout=300)
-    try:
-        data = json.loads(so)
-    except ValueError:
-        raise Inconclusive("cannot read the goto symbol table")
+        units = [(src, list(BASE_CFLAGS) + ["-DVP_CBMC", "-DVP_ON_%s=1" % prop, "-include",
+                                            os.path.join(VERIF, "model", "vp_shim.h")])]
     table = {}
-    for it in data:
-        if isinstance(it, dict) and "symbolTable" in it:
-            table = it["symbolTable"]
+    for n, (src, fl) in enumerate(units):
+        goto = os.path.join(workdir, "sym%d.goto" % n)
+        rc, so, se, _ = sh(["goto-cc", "-c", src, "-o", goto] + fl, timeout=300)
+        if rc != 0:
+            raise Inconclusive("goto-cc failed for the symbol-table unit:\n" + se[-2000:])
+        rc, so, se, _ = sh(["goto-instrument", "--show-symbol-table", "--json-ui", goto], timeout=300)
+        try:
+            data = json.loads(so)
+        except ValueError:
+            raise Inconclusive("cannot read the goto symbol table")
+        for it in data:
+            if isinstance(it, dict) and "symbolTable" in it:
+                table.update(it["symbolTable"])
     obligations, violations = [], []
     for name, sym in sorted(table.items()):
         loc = (sym.get("location") or {}).get("file", "")
